@@ -125,6 +125,36 @@ def grammar_programs(thorough):
     return out
 
 
+def wrapper_programs():
+    """bounded-exhaustive over the STATEMENT constructors: every composition of two (and the triple label) of label /
+    block / if / if-else / while / do / for -- braced and unbraced -- around each of a few core statements: the
+    syntax report and the analysis each dispatch on the statement kind and each look through labels and blocks on
+    their own, at every depth"""
+    core = ['x = y + z;', 'x++;', 'x = y, y = z;', '(int)x++;', 'x = y * y;', 'foo(x);', 'x = -(int)y;']
+    lab = [0]
+
+    def wrappers():
+        def label(s_):
+            lab[0] += 1
+            return 'L%d: %s' % (lab[0], s_)
+        return [label, lambda s_: '{ %s }' % s_, lambda s_: 'if (u < v) %s' % s_,
+                lambda s_: 'if (u < v) { %s } else %s' % (s_, s_), lambda s_: 'while (u < v) %s' % s_,
+                lambda s_: 'do %s while (u < v);' % s_, lambda s_: 'for (i = 0; i < n; i++) %s' % s_]
+    out = []
+    sig = 'int f(int x,int y,int z,int u,int v,int n,int i)'
+    for c in core:
+        for w1 in wrappers():
+            for w2 in wrappers():
+                lab[0] = 0
+                out.append('%s{ %s }' % (sig, w1(w2(c))))
+        lab[0] = 0
+        w = wrappers()[0]
+        out.append('%s{ %s }' % (sig, w(w(w(c)))))
+        lab[0] = 0
+        out.append('%s{ while (u < v) { %s } }' % (sig, w(w(c))))
+    return out
+
+
 def templates():
     out = []
     for st in STMTS:
@@ -191,7 +221,7 @@ def observe(fnode):
 
 def run(ctx):
     rng = ctx.rng
-    srcs = templates() + grammar_programs(ctx.tier == 'thorough')
+    srcs = templates() + wrapper_programs() + grammar_programs(ctx.tier == 'thorough')
     ctx.extra['grammar_programs'] = len(srcs)
     ctx.extra['templates'] = len(srcs)
     for i in range(ctx.budget(80, 3000)):
